@@ -118,27 +118,40 @@ CLAIMED = {
             "Lean 4 proof (induction on the axis and on the number of refinements) + differential correspondence check",
             "DESIGN.md §4 C13"),
     "C05": ("Lean 4 theorems about a model of the bookkeeping of Engine.price / price_with_constant_mc_paths_and_level and of the "
-            "zero-padded per-level sample arrays: for every scripted process, every oracle history (optimal sizes, convergence "
-            "verdicts, level additions) and every initial configuration, whenever results are read each level's array is exactly the "
-            "samples simulated at that level in simulation order (no placeholder counted, nothing dropped, duplicated or overwritten), "
-            "N_l is their number, the price is the sum of per-level means over them and the level-0 coarse payoff is 0; negation "
-            "witness for the pre-fix counter. Tied to /repo by running the real engine with a scripted coupling process and a scripted "
-            "public ConvergenceCriteria on the same histories (rows compared exactly, statistics at 2^-40) plus an oracle that compares "
-            "the arrays with the process's own simulation log.",
-            "numpy/scipy moment kernels compared, not proved; single process (multi-process order is C08); control-variate arrays not modelled.",
-            "Lean 4 proof (loop invariant by induction over the oracle history) + differential correspondence on scripted engine runs",
+            "zero-padded per-level sample arrays, with and without control variates: for every scripted process, every oracle "
+            "history (optimal sizes, convergence verdicts, level additions) and every initial configuration, at EVERY read point "
+            "(every iteration, not only the end) each level's payoff, control and adjusted array is exactly the samples simulated "
+            "at that level in simulation order (no placeholder counted, nothing dropped, duplicated, moved or overwritten), N_l is "
+            "their number, sum_cost is cost x N_l, the ml / vl / cl handed to the criteria are functions of exactly those samples, "
+            "the price is the sum of per-level (adjusted) means, the level-0 coarse payoff and coarse coefficients are 0, adjusted "
+            "row i is Y_i - sum_j b_j (X_ji - price_j) with one b per level and column, and the mean identity holds at the "
+            "multilevel level (any number of controls, any regression kernel); negation witness for the pre-fix counter. Tied to "
+            "/repo by running the real engine with a scripted coupling process and a scripted public ConvergenceCriteria on the "
+            "same histories (rows compared exactly at every read point, every callback argument, statistics at 2^-40, k <= 2 "
+            "controls, engine reuse: one Engine priced several times) plus an oracle that compares the arrays with the process's "
+            "own simulation log.",
+            "numpy/scipy moment kernels compared, not proved; single process (multi-process order is C08); multilevel control "
+            "variates modelled for payoff dimension 1 and k <= 2 controls in the driver.",
+            "Lean 4 proof (loop invariant by induction over the oracle history) + differential correspondence on scripted engine "
+            "runs",
             "DESIGN.md §4 C05"),
-    "C06": ("Lean 4 theorems: (i) over the reals, for non-negative variances and strictly positive costs the Giles allocation as coded "
-            "gives sum V_l/N_l <= (1-theta) rmse^2 and N_l >= 1 where V_l > 0 (plus a field-generic version with root certificates and a "
-            "witness that a zero-cost level breaks it); (ii) the budget split bias share + variance share <= 1 as a proof obligation over "
-            "constants measured on the running code and regenerated before every build; (iii) on the loop model of C05: never a level "
-            "above the maximum, and every return is either the stated one (1% rule met and (bias test passed or maximum level)) or the "
-            "fall-through exit, with a witness that the latter is reachable. Correspondence: compute_mc_paths_giles / criteria_giles vs "
-            "the model's executable definitions (exact integers on dyadic roots), real engine runs vs the loop model; oracles evaluate "
-            "the budget, the level bound and the return reason on the implementation.",
-            "Float sqrt/ceil not modelled (ceil boundaries excluded); regression of the rates is an oracle input; the iteration bound under bounded "
-            "sizes is not proved; two recorded findings (zero-cost level, fall-through exit).",
-            "Lean 4 proof (real analysis with Real.sqrt + loop invariants) + behaviour-derived generated obligation + differential correspondence",
+    "C06": ("Lean 4 theorems: (i) over the reals, for non-negative variances and strictly positive costs (no lower bound) the Giles "
+            "allocation as coded gives sum V_l/N_l <= (1-theta) rmse^2 and N_l >= 1 where V_l > 0, and the allocation is invariant "
+            "under any positive rescaling of the costs (plus a field-generic version with root certificates and a witness that an "
+            "exactly-zero-cost level breaks the budget); (ii) the budget split bias share + variance share <= 1 as a proof "
+            "obligation over constants measured on the running code and regenerated before every build; (iii) on the loop model of "
+            "C05: never a level above the maximum, every return is either the stated one (1% rule met and (bias test passed or "
+            "maximum level)) or the fall-through exit (witness that the latter is reachable), L, N_l and the arrays never decrease "
+            "and no sample is ever discarded (all histories), termination within (level_max+1)B+1 iterations for sizes bounded by "
+            "B. Correspondence: compute_mc_paths_giles / criteria_giles vs the model's executable definitions (exact integers on "
+            "dyadic roots, cost rescalings by powers of four exact), real engine runs vs the loop model; oracles evaluate the "
+            "budget (also on costs rescaled down to 1e-20), the level bound, the return reason and - for all 8 given/None patterns "
+            "of the public ConvergenceRates - that the rate used at every iteration is the prescribed one.",
+            "Float sqrt/ceil not modelled (ceil boundaries excluded); the lstsq regression of the rates is an oracle input (which "
+            "rate is used where is oracle-checked); boundedness of the real allocation along a run not proved; two recorded "
+            "findings (zero-cost level, fall-through exit).",
+            "Lean 4 proof (real analysis with Real.sqrt + loop invariants) + behaviour-derived generated obligation + differential "
+            "correspondence",
             "DESIGN.md §4 C06"),
     "C01": ("Lean 4 model of cells (clamped neighbours + the grid's own cell-boundary function), truncation, rates, intensity and the 3^d-1 "
             "block decomposition; 51 theorems at full strength for every strictly increasing axis with 0 inside, every cell-boundary "
@@ -174,16 +187,22 @@ CLAIMED = {
             "Lean 4 proof (cell decompositions in continuation style, structural induction on tree/heap constructions, "
             "state-machine invariants) + differential correspondence",
             "DESIGN.md §4 C02"),
-    "C07": ("Lean 4 theorems over Q for every number of paths and every sample: the path loop stores df*notional*payoff(path i) at row i for "
-            "exactly n rows (each path once); price = df*notional*mean; squared error = unbiased variance / n per component (the pre-fix "
-            "/(n*d) as witness); control variates: mean of Y - b(X - price_X) equals the raw mean when the controls' sample means equal "
-            "their prices, for any number of controls and any coefficients; with one control and the regression coefficient as coded "
-            "(incl. the fallback b*=0) the adjusted sample variance and reported error never exceed the raw ones, and for any number of "
-            "controls the adjusted variance is var Y - var(sum b_j X_j) <= var Y whenever the coefficients solve the normal equations. Correspondence: the real "
-            "standard engine driven by a scripted process with prescribed dyadic paths vs the model's exact rational statistics; textbook "
-            "oracles on the implementation.",
-            "That numpy.linalg.pinv yields coefficients solving the normal equations is oracle-checked (residual), not proved; numpy kernels compared.",
-            "Lean 4 proof (finite-sum algebra) + differential correspondence on scripted engine runs",
+    "C07": ("Lean 4 theorems over Q for every number of paths and every sample: the path loop stores df*notional*payoff(path i) at "
+            "row i for exactly n rows (each path once); price = df*notional*mean; squared error = unbiased variance / n per "
+            "component (the pre-fix /(n*d) as witness); control variates, scalar and vector payoffs (one coefficient vector per "
+            "component): mean of Y - b(X - price_X) equals the raw mean when the controls' sample means equal their prices, for any "
+            "number of controls and any coefficients; with one or two controls the kernel as coded (guard, inverse and "
+            "pseudo-inverse branches) solves the normal equations, so the adjusted sample variance and reported error never exceed "
+            "the raw ones; for any number of controls the adjusted variance is var Y - var(sum b_j X_j) <= var Y whenever the "
+            "coefficients solve the normal equations (Cauchy-Schwarz equality case for collinear controls). Correspondence: the "
+            "real standard engine driven by a scripted process with prescribed dyadic paths vs the model's exact rational "
+            "statistics (k <= 2, d <= 3, vector controls and prices, collinear controls), engine-reuse histories (one Engine priced "
+            "2-3 times with paths down/equal/up, dimension and controls changing); oracles on the implementation's own fitted "
+            "adjustment (it lies in the span of the controls and satisfies the normal equations).",
+            "k >= 3 controls: that numpy.linalg.pinv yields coefficients solving the normal equations is oracle-checked on the "
+            "engine's output, not proved; numpy kernels compared.",
+            "Lean 4 proof (finite-sum algebra, 2x2 pseudo-inverse case analysis) + differential correspondence on scripted engine "
+            "runs",
             "DESIGN.md §4 C07"),
     "C08": ("Lean 4 theorems about a token model of the generators (seeding re-enters the stream of that seed at position 0): for every "
             "list of passes/levels, path counts and on-the-fly draw counts, a single-process run of the (fixed) engines consumes every "
